@@ -91,7 +91,7 @@ impl ReaderState {
 //@end
 
 //@extract state::ReaderState::emit_bang | src/reader/state.rs :: impl ReaderState :: fn emit_bang | serves=C01,C03,C08,C16,C17
-//@rewrite buf[8..].iter().position(|&b| ==> shim::position(&buf[8..], |b: u8|
+//@rewrite $X.iter().position(|&b| ==> shim::position(&$X, |b: u8|
  #[verifier::loop_isolation(false)]
  pub(crate) fn emit_bang<'b>(&mut self, bang_type: BangType, buf: &'b [u8]) -> (r: Result<Event<'b>>)
         requires
